@@ -80,6 +80,27 @@ CHECKS = {
             "forwards shared parameters to its base; no call in the regulariser functionals is certain to raise (signature binding, calls of "
             "non-callables). Does not decide (yet): regulariser weights, null spaces, elastic-constant identities, unit conversion.",
             "DESIGN.md 4/C17"),
+    "C09": (True, "E5(T6x)+module model",
+            "bounded exploration of operation histories by abstract interpretation of the real transform classes (nn.Module semantics modelled) "
+            "with a freshly-recomputed twin as oracle",
+            "Decides for DisplacementField / StationaryVelocityField / FreeFormDeformation / SVFFD with parameters held as Parameter, buffer, "
+            "plain tensor or callable: for every history up to length 2 (quick) / 3 (thorough) over {data_, in-place edit, grid_, condition_, "
+            "reset_parameters, update, call, disp, clear_buffers} starting from populated buffers, calling the transform equals a twin recomputed "
+            "from the current parameters/grid/conditioning, and tensor()/disp() right after a replacing/resetting operation are fresh; grid "
+            "refinement of spline models preserves the spline at coincident samples; re-gridding dense models re-expresses the vectors in the new "
+            "grid's units/convention. Symbolic parameter values; torch.grid_sample uninterpreted (content-keyed). Does not decide: longer "
+            "histories, link/unlink histories (known sharing findings are owned by C15/C07), numeric accuracy of the recomputed buffers.",
+            "DESIGN.md 4/C09"),
+    "C14": (True, "E5(T3)+E4",
+            "abstract interpretation of the B-spline tables/evaluation/subdivision over exact rationals and a symbolic offset; conv/conv_transpose modelled",
+            "Decides: cubic_bspline_interpolation_weights equals the analytic basis and its formal derivatives as polynomials in the offset "
+            "(orders 0-3, zero above), partition of unity, linear precision; cubic_bspline_value/cubic_bspline1d equal the centred B-spline; "
+            "evaluate_cubic_bspline (D=1,2,3, mixed strides, derivative orders, cropped shapes) equals the tensor-product reference on symbolic "
+            "coefficients and the transposed-convolution algorithm agrees; linear coefficient fields are reproduced; control-grid size covers "
+            "the image for sizes 1..20 x strides 1..6 and the control-point grid is placed one spacing before the origin; subdivision obeys the "
+            "two-scale relation and keeps the function; refining an FFD's grid keeps the spline at coincident samples. Does not decide: sizes/"
+            "strides beyond those enumerated, float accuracy.",
+            "DESIGN.md 4/C14"),
 }
 
 NOT_BUILT_REASON = "static check for this property is designed (DESIGN.md section 4) but not yet built in this revision"
